@@ -79,7 +79,7 @@ pub fn nth_string(alphabet: &[&str], mut idx: u64, out: &mut String) {
     }
 }
 
-fn real_tokens(line: &str) -> Result<Vec<String>, String> {
+pub fn real_tokens(line: &str) -> Result<Vec<String>, String> {
     let mut buf = line.as_bytes().to_vec();
     let r = std::panic::catch_unwind(std::panic::AssertUnwindSafe(|| {
         let s = std::str::from_utf8_mut(&mut buf).unwrap();
@@ -326,7 +326,7 @@ pub fn c07_roundtrip(max_items: u32, max_sym: u32) -> EnumOutcome {
 
 pub const C08_SIGMA: [&str; 6] = ["-", "a", "é", "中", "𝄞", " "];
 
-fn real_classify(tokens: &[String]) -> Result<Vec<RArg>, String> {
+pub fn real_classify(tokens: &[String]) -> Result<Vec<RArg>, String> {
     let raw = tokens.join("\0");
     let r = std::panic::catch_unwind(std::panic::AssertUnwindSafe(|| {
         let t = Tokens::from_raw(&raw, tokens.is_empty());
